@@ -11,7 +11,8 @@
      self.options.privacy                       the rule list, in command-line order
      self._privacyClassCache.get(k) / [k] = v   the association list `cache` of Model/Privacy.v
      qnmatch.qnmatch(a, b)                      Model.QnMatch.qnmatch (may raise)
-     s.startswith(c) / s.endswith(c), ==, is None, is not None, and / or / not, PrivacyClass.X
+     s.startswith(c) / s.endswith(c), ==, is None, is not None, and / or / not, PrivacyClass.X,
+     the conditional expression `a if t else b`
    A `for a, b in reversed(rules)` loop is structural recursion over the reversed list: no fuel. *)
 From Coq Require Import NArith List Bool.
 From PydoctorVerif Require Import Base.Sexp Spec.ReFrag Spec.PrivacySpec Model.QnMatch Model.Privacy.
@@ -46,7 +47,8 @@ Inductive pexpr : Type :=
 | XEq (a b : pexpr)          (* == on strs *)
 | XStartsWith (a : pexpr) (c : text)
 | XEndsWith (a : pexpr) (c : text)
-| XQnMatch (a b : pexpr).    (* qnmatch.qnmatch(a, b) *)
+| XQnMatch (a b : pexpr)     (* qnmatch.qnmatch(a, b) *)
+| XIf (t a b : pexpr).       (* a if t else b : t is evaluated first, then exactly one of a, b *)
 
 Inductive pstmt : Type :=
 | PSkip
@@ -103,6 +105,8 @@ Section Interp.
       bind (peval c e a) (fun v => bind (p_str v) (fun s =>
       bind (peval c e b) (fun w => bind (p_str w) (fun t =>
       bind (qnmatch s t) (fun r => Ok (PBool r))))))
+    | XIf t a b =>
+      bind (peval c e t) (fun v => bind (p_bool v) (fun x => if x then peval c e a else peval c e b))
     end.
 
   Inductive presult : Type :=
